@@ -529,11 +529,15 @@ def reseal(data):
 
 
 def make_file(pieces, comp_type=0, dict_bytes=b"", hash_type=1, chunk_hash_type=1, uncomp=False,
-              level=3, opt_elems=None, detached=False, header_tail=b""):
-    """Build a valid file from content pieces without libzck."""
+              level=3, opt_elems=None, detached=False, header_tail=b"", stored_empty_dict=False):
+    """Build a valid file from content pieces without libzck.
+    stored_empty_dict: no dictionary, but the first index entry stores the zstd frame of nothing (9 bytes stored, 0 bytes of content) -
+    what a writer that compresses every entry alike produces; libzck itself stores no bytes for an absent dictionary."""
     stored = []
     if dict_bytes:
         sd = dict_bytes if comp_type == 0 else zstd_compress(dict_bytes, b"", level)
+    elif stored_empty_dict and comp_type == 2:
+        sd = zstd_compress(b"", b"", level)
     else:
         sd = b""
     cds = DIGEST_SIZE[chunk_hash_type]
